@@ -169,7 +169,8 @@ def observe_mode(d, S, docs, x, mode):
                    resolver.store; second answer observed
       decoy-after  a second resolver for a decoy schema (same base URI, same names, other meanings) is constructed
                    with the first resolver's store object before the validator under test is used
-      decoy-before the validator under test is constructed with the store object of a decoy's resolver"""
+      decoy-before the validator under test is constructed with the store object of a decoy's resolver
+      legacy-resolver the validator is given a resolver object that offers resolving() but no resolve()"""
     cls = _e1.CLS[d]
     failed_once = set()
     serving = {"on": mode != "late-store"}
@@ -205,6 +206,9 @@ def observe_mode(d, S, docs, x, mode):
                 r.store[k] = copy.deepcopy(doc)
         return errs(v)
     store = {k: copy.deepcopy(v) for k, v in docs.items()}
+    if mode == "legacy-resolver":
+        r = RefResolver.from_schema(S, id_of=cls.ID_OF, store=store, handlers={"http": handler})
+        return errs(cls(S, resolver=LegacyResolver(r)))
     D = decoy_of(S, d)
     if mode == "decoy-after":
         r = RefResolver.from_schema(S, id_of=cls.ID_OF, store=store, handlers={"http": handler})
@@ -218,7 +222,35 @@ def observe_mode(d, S, docs, x, mode):
     return errs(cls(S, resolver=r))
 
 
-MODES = ("flaky", "late-store", "decoy-after", "decoy-before")
+class LegacyResolver(object):
+    """The older resolver interface a caller may hand to a validator: resolving() as a context manager and the
+    scope stack, but no resolve()."""
+
+    def __init__(self, inner):
+        self._inner = inner
+
+    @property
+    def resolution_scope(self):
+        return self._inner.resolution_scope
+
+    @property
+    def base_uri(self):
+        return self._inner.base_uri
+
+    def push_scope(self, scope):
+        self._inner.push_scope(scope)
+
+    def pop_scope(self):
+        self._inner.pop_scope()
+
+    def in_scope(self, scope):
+        return self._inner.in_scope(scope)
+
+    def resolving(self, ref):
+        return self._inner.resolving(ref)
+
+
+MODES = ("flaky", "late-store", "decoy-after", "decoy-before", "legacy-resolver")
 MODE_INST = 4       # the extra environment modes meet the first instances of the family
 
 
@@ -408,8 +440,9 @@ def plan(ctx):
                  "differ only in the percent-encoding of a reserved character; recursive schemas; each case run "
                  "with store-only and with handler-served documents, and for the first 4 instances also with a "
                  "handler that fails once per document, with documents put into resolver.store after a failed "
-                 "validation, and with a decoy resolver (same base URI and names, other meanings) built from / "
-                 "feeding the resolver's store object; the designation model inlines every reference and the inlined schema is validated by "
+                 "validation, with a decoy resolver (same base URI and names, other meanings) built from / "
+                 "feeding the resolver's store object, and with a resolver object of the older interface "
+                 "(resolving() only); the designation model inlines every reference and the inlined schema is validated by "
                  "the implementation; distinct by construction (label is unique); non-trivial = the expected "
                  "error multiset is non-empty"),
         "bounds": {"names": len(NAMES if ctx.thorough else NAMES_Q), "instances": len(INST), "tier": ctx.tier},
